@@ -9,6 +9,7 @@
    compared bit for bit with the library on every run (ops mpf_set_str13, mpf_get_str13, mpf_str_roundtrip13). -/
 import MpirProofs.Lemmas.MpfStrDiv
 import MpirProofs.Lemmas.MpfStrGet
+import MpirProofs.Lemmas.MpfStrParse
 namespace Mpir.MpfStr
 open Mpir Mpir.Mpf
 
@@ -164,6 +165,61 @@ theorem set_str_spec (prec : ℕ) (dst : F) (base : ℤ) (s : List ℕ) :
 
 example : set_str 2 ⟨2, 2, -3, [5, 7]⟩ 10 ("1e".toList.map Char.toNat) = (-1, ⟨2, 2, -3, [5, 7]⟩) := by decide +kernel
 
+/-- What an accepted string yields: the base is |base| (10 for base 0) and lies in 2..62, every mantissa digit is a
+    digit of that base, the fraction length does not exceed the digit count, and the sign is the `-` found after
+    the leading white space. -/
+theorem parse_sound (base : ℤ) (s : List ℕ) (p : Parsed) (h : parse base s = some p) :
+    2 ≤ p.base ∧ p.base ≤ 62 ∧ p.base = baseOf base ∧
+    (∀ d ∈ p.digits, d < p.base) ∧ p.frac ≤ p.digits.length ∧
+    p.neg = (((s.takeWhile (· != 0)).dropWhile Radix.isSpace).head? == some 45) :=
+  parse_wf base s p h
+
+example : parse (-16) (" -fF.8@-10".toList.map Char.toNat) = some ⟨true, 16, [15, 15, 8], 1, -10⟩ := by decide +kernel
+example : parse 10 ("1e5xyz".toList.map Char.toNat) = some ⟨false, 10, [1], 0, 5⟩ := by decide +kernel
+example : parse 10 ("1.2.3".toList.map Char.toNat) = none ∧ parse 10 ("- 5".toList.map Char.toNat) = none ∧
+    parse 16 ("1e5".toList.map Char.toNat) = some ⟨false, 16, [1, 14, 5], 0, 0⟩ ∧ parse 63 [49] = none ∧
+    parse 10 ("1e5e3".toList.map Char.toNat) = none := by decide +kernel
+
+/-- **mpf_set_str, all inputs.**  For every string, base and destination of precision prec ≥ 1 limb field:
+    either the string is rejected (return -1, destination untouched), or it is accepted (return 0) and the
+    destination then holds a well-formed mpf which is the canonical zero if the mantissa is zero, and otherwise
+    differs from the value denoted, ±mantissa·base^(exponent − fraction length), by less than 2^(2-p) times its
+    magnitude whenever that power fits the C `long` it is computed in, and equals it whenever mantissa, power
+    and value fit in p bits. -/
+theorem mpf_set_str_correct (prec : ℕ) (hp : 1 ≤ prec) (dst : F) (base : ℤ) (s : List ℕ) :
+    (parse base s = none ∧ set_str prec dst base s = (-1, dst)) ∨
+    (∃ p, parse base s = some p ∧ (set_str prec dst base s).1 = 0 ∧ WF (set_str prec dst base s).2 ∧
+      (p.mant = 0 → (set_str prec dst base s).2 = zero prec) ∧
+      (p.mant ≠ 0 → p.scale.natAbs < 2 ^ 63 →
+        |toQ (set_str prec dst base s).2 - p.value| < eps prec * |p.value|) ∧
+      (p.mant ≠ 0 → Fits (p.mant : ℚ) (PREC_TO_BITS prec) →
+        Fits (((p.base ^ p.scale.natAbs : ℕ) : ℚ)) (PREC_TO_BITS prec) → Fits p.value (PREC_TO_BITS prec) →
+        toQ (set_str prec dst base s).2 = p.value)) := by
+  cases h : parse base s with
+  | none => left; exact ⟨rfl, ((set_str_spec prec dst base s).1 h)⟩
+  | some p =>
+    right
+    have hs := (set_str_spec prec dst base s).2 p h
+    have hb : 1 ≤ p.base := by have := (parse_wf base s p h).1; omega
+    refine ⟨p, rfl, by rw [hs], ?_, ?_, ?_, ?_⟩
+    · rw [hs]
+      by_cases hM : p.mant = 0
+      · exact (convert_zero prec p hM).2
+      · -- format rules hold for every exponent (the bound needs the `long` range only for the error)
+        unfold convert
+        rw [if_neg hM]
+        by_cases h0 : p.scale.natAbs = 0
+        · rw [if_pos h0]; exact (convInt_spec prec p.neg p.mant hM).1
+        · rw [if_neg h0]
+          by_cases hneg : p.scale < 0
+          · rw [if_pos hneg]; exact (convDiv_spec prec p.neg p.mant p.base p.scale.natAbs hM hb (by omega)).1
+          · rw [if_neg hneg]; exact (convMul_spec prec p.neg p.mant p.base p.scale.natAbs hM hb (by omega)).1
+    · intro hM; rw [hs]; exact (convert_zero prec p hM).1
+    · intro hM he; rw [hs]; exact (convert_err prec hp p hb hM he).2
+    · intro hM f1 f2 f3; rw [hs]; exact convert_exact_if_fits prec hp p hb hM f1 f2 f3
+
+example : (set_str 2 ⟨2, 2, -3, [5, 7]⟩ 10 ("-12.5e1".toList.map Char.toNat)) = (0, ⟨2, -1, 1, [125]⟩) := by decide +kernel
+
 /-! ## mpf_get_str: what the run-time predicate decides -/
 
 /-- The integer test `withinUnit` evaluated by the driver is the statement "the digits d₁…d_L with exponent x
@@ -196,5 +252,47 @@ example : GetOk 10 [3, 1, 4, 1, 6] 1 5 314159 100000 = true := by decide +kernel
 example : GetOk 10 [3, 1, 4, 1, 6] 1 5 31427 10000 = false := by decide +kernel
 example : GetOk 10 [0, 3, 1, 4, 2] 2 5 31416 10000 = false := by decide +kernel
 example : GetOk 10 [1] 3 4 99996 1000 = true := by decide +kernel        -- 99.996 to 4 digits: "1", exponent 3
+
+/-- **Rounding up** (get_str.c:259-280).  Adding one unit to the last kept digit: the digits returned — carried
+    positions cut off, or the single digit 1 with the exponent raised by one when every digit was b-1 — denote
+    exactly the old value plus one unit of its last place; they are digits of the base, at least one, not more
+    than before, and the last one is not zero. -/
+theorem roundUp_value (b : ℕ) (hb : 2 ≤ b) (ds : List ℕ) (x : ℤ) (hne : ds ≠ []) (hds : ∀ d ∈ ds, d < b) :
+    digVal b (roundUp b ds x).1 (roundUp b ds x).2 = digVal b ds x + (b : ℚ) ^ (x - (ds.length : ℤ)) ∧
+    (∀ d ∈ (roundUp b ds x).1, d < b) ∧ (roundUp b ds x).1.getLast? ≠ some 0 ∧
+    1 ≤ (roundUp b ds x).1.length ∧ (roundUp b ds x).1.length ≤ ds.length := by
+  obtain ⟨a, b', c, d, e⟩ := roundUp_spec b hb ds x hds
+  refine ⟨?_, b', c, d, ?_⟩
+  · rw [a]; unfold digVal; ring
+  · rcases e with e | e
+    · exact e
+    · exact absurd e hne
+
+example : roundUp 10 [9, 9, 9] 5 = ([1], 6) ∧ roundUp 10 [1, 2, 9, 9] 5 = ([1, 3], 5) ∧
+    roundUp 16 [15, 14] (-3) = ([15, 15], -3) := by decide +kernel
+
+/-- **Integers are converted exactly.**  If the operand holds the integer N > 0 (EXP ≥ number of limbs), N has at
+    most as many digits as are worked to, all limbs are used (|size| ≤ n_limbs_needed), the multiplication
+    branch is taken (EXP ≤ n_limbs_needed) and base^e stays below B^n_limbs_needed (so mpn_pow_1_highpart
+    truncates nothing), then mpf_get_str delivers exactly the digits of N without its trailing zeros, and the
+    exponent is the number of digits of N. -/
+theorem get_digits_integer_exact (base nd0 : ℕ) (u : F) (hb : 2 ≤ base) (N : ℕ) (hN : 0 < N)
+    (hlen : (u.d.length : ℤ) ≤ u.exp)
+    (hval : N = val u.d * B ^ (u.exp - (u.d.length : ℤ)).toNat)
+    (hun : u.d.length ≤ nLimbsNeeded base (effDigits base u.prec nd0))
+    (hexp : u.exp ≤ (nLimbsNeeded base (effDigits base u.prec nd0) : ℤ))
+    (hpow : base ^ (Radix.mulTrunc (64 * ((nLimbsNeeded base (effDigits base u.prec nd0) : ℤ) - u.exp).toNat)
+        (Radix.cpbeBits base)) < B ^ nLimbsNeeded base (effDigits base u.prec nd0))
+    (hdig : (Radix.digitsOf base N).length ≤ effDigits base u.prec nd0) :
+    get_digits base nd0 u =
+      (stripTrailingZeros (Radix.digitsOf base N), ((Radix.digitsOf base N).length : ℤ)) :=
+  get_digits_integer base nd0 u hb N hN hlen hval hun hexp hpow hdig
+
+-- non-vacuity: 12500 held by a 64-bit-precision mpf, all significant digits requested, base 10: "125", exponent 5
+example : get_digits 10 0 ⟨2, 1, 1, [12500]⟩ = ([1, 2, 5], 5) := by
+  rw [get_digits_integer_exact 10 0 ⟨2, 1, 1, [12500]⟩ (by norm_num) 12500 (by norm_num) (by decide) (by decide +kernel)
+    (by decide +kernel) (by decide +kernel) (by decide +kernel) (by decide +kernel)]
+  decide +kernel
+example : get_str (-16) 3 ⟨2, -2, 1, [B / 2, 255]⟩ = ("-FF8".toList.map Char.toNat, 2) := by decide +kernel
 
 end Mpir.MpfStr
